@@ -10,7 +10,8 @@
    What is proved: the same with the guard `key_guard` / `ns_guard` (no Union node re-selects a
    member on the adapted value — Model/C10Adapt.v, `stable`), for every type of the grammar, every
    input value, every parser with distinct keys; and without any guard for Union-free types. *)
-From JV Require Import Lib.Base Model.C10Adapt Model.C10Parser Proofs.C10AdaptProofs Proofs.C10ParserProofs.
+From JV Require Import Lib.Base Model.C10Adapt Model.C10Parser Model.C10Nargs Proofs.C10AdaptProofs Proofs.C10ParserProofs
+                       Proofs.C10NargsProofs.
 
 (* adapt_typehints: a value it returned is returned unchanged when adapted again *)
 Theorem C10_readapt_fixed_point :
@@ -69,6 +70,29 @@ Theorem C10_parse_object_fixed_point :
 Proof. exact parse_flat_fixed. Qed.
 Print Assumptions C10_parse_object_fixed_point.
 
+(* list-valued options (nargs '+', '*', N): _check_type iterates the value, passes every item through the
+   scalar path and writes it back; a mapping, a non-empty str / tuple / set and a scalar are refused, an empty
+   str / tuple / set is handed back untouched.  What it accepted it returns unchanged ... *)
+Theorem C10_nargs_check_type_fixed_point :
+  forall (jload : str -> lres) (pval : bool -> str -> lres) (ikey : str -> option Z)
+         (dflt : val) (t : ty) (v0 w : val),
+    list_guard jload pval ikey dflt t v0 = true ->
+    check_type_list jload pval ikey dflt t v0 = AOk w ->
+    check_type_list jload pval ikey dflt t w = AOk w.
+Proof. exact check_type_list_fixed. Qed.
+Print Assumptions C10_nargs_check_type_fixed_point.
+
+(* ... so a list-valued key that went through a parse method validates and re-parses to itself, item by item
+   (every item normalised once; the guard is the key-level guard on every item) *)
+Theorem C10_nargs_key_validates_and_reparses :
+  forall (jload : str -> lres) (pval : bool -> str -> lres) (ikey : str -> option Z)
+         (dflt : val) (t : ty) (v0 w : val),
+    list_guard jload pval ikey dflt t v0 = true ->
+    parse_list_key jload pval ikey dflt t v0 = AOk w ->
+    validate_list_key jload pval ikey dflt t w = true /\ parse_list_key jload pval ikey dflt t w = AOk w.
+Proof. exact parse_list_key_fixed. Qed.
+Print Assumptions C10_nargs_key_validates_and_reparses.
+
 (* ---- the finding: without the guard the statement is false --------------------------------------
    Union[Tuple[int], Set[int]] given [1, 1]: Tuple[int] rejects two elements, Set[int] makes {1};
    on {1} the Union now selects Tuple[int] and answers (1,).  No text is involved. *)
@@ -119,4 +143,15 @@ Example C10_guard_satisfiable_parser :
   ns_guard ex_jload ex_pval no_int ex_parser asg = true /\
   parse_flat ex_jload ex_pval no_int ex_parser asg = Some cfg /\
   parse_flat ex_jload ex_pval no_int ex_parser (as_assignments ex_parser cfg) = Some cfg.
+Proof. vm_compute. repeat split; reflexivity. Qed.
+
+(* nargs='+', type=Union[float, None] given ['1', 1, None]-like items: text and int items become floats, the
+   guard holds for every item, the list is a fixed point *)
+Example C10_nargs_guard_satisfiable :
+  let t := TUnion [TFloat; TNone] in
+  let v0 := VList [VStr s1; VInt 1; VNone] in
+  let w := VList [VFloat (FFin 1 0); VFloat (FFin 1 0); VNone] in
+  list_guard ex_jload ex_pval no_int VNone t v0 = true /\
+  parse_list_key ex_jload ex_pval no_int VNone t v0 = AOk w /\
+  parse_list_key ex_jload ex_pval no_int VNone t w = AOk w.
 Proof. vm_compute. repeat split; reflexivity. Qed.
